@@ -48,6 +48,13 @@ func (p *Point) UnmarshalCBOR(data []byte) error {
 	if _, err := cbor.Decode(data, &tmp); err != nil {
 		return err
 	}
+	// A point is either the origin (empty list) or a slot and hash pair
+	if len(tmp) != 0 && len(tmp) != 2 {
+		return fmt.Errorf(
+			"Point must have 0 or 2 elements, got %d",
+			len(tmp),
+		)
+	}
 	if len(tmp) == 2 {
 		slot, ok := tmp[0].(uint64)
 		if !ok {
